@@ -142,7 +142,7 @@ pub const SET_CORE: &[(Kd, u32)] = &[
     (Kd::WithCapacity, 1),
     (Kd::New, 1),
 ];
-const SET_WORLDS: &[(&str, u32)] = &[("S8", 6), ("S24", 6), ("S1", 4), ("S2", 4), ("Sz", 1)];
+const SET_WORLDS: &[(&str, u32)] = &[("S8", 6), ("S24", 6), ("S1", 4), ("S2", 4), ("Sz", 1), ("Ss", 2)];
 
 /// The HashSet variant of a property's profile (None: the property has no set part).
 fn set_spec(prop: &str, thorough: bool, rng: &mut Rng, universe: u32, n_ops: usize) -> Option<RunSpec> {
